@@ -17,7 +17,7 @@ func init() {
 	register(&Property{
 		Meta: report.Meta{
 			Property:    "C18",
-			Explanation: "Error-discipline analysis (engine E6) over the stream-handling code: the set S of functions of packages container, token, delegation, invocation, envelope reachable from the exported functions that take an io.Reader / io.Writer (plus the CIDReader/CIDWriter methods) is computed on the in-module call graph; in S every call, defer or go whose callee returns an error and that is stream-related (its receiver or an argument implements io.Reader or io.Writer, or the callee is itself in S) must not lose that error: the error value must be used, every path on which it is tested non-nil must end in a failure return / false / panic or hand the error to the iterator consumer, and a deferred call may not return an error. Exemptions are a frozen table with reasons (hash.Hash.Write never fails; io.EOF ends the CAR iteration - the documented undetectable cut; calls on paths that already return an error). (R2) ldRead converts io.EOF from ReadUvarint / ReadFull into io.ErrUnexpectedEOF and only the Peek EOF propagates as a clean end; (R3) CIDReader.Read latches every non-EOF error and CID() returns it; FromSealedReader requires CID() to succeed. Independence from chunking is the contract of bufio / io.ReadFull / base64 / refmt and is not decided. (R4) no object is put back into a sync.Pool while still reachable from what the function returns (positive example under lint/testdata/canary/pool). A function literal run by defer may store an error only into a named result of the enclosing function. On a path that reaches a success return without testing the error of a stream-related call, the error is returned, stored, passed to a call or appears in a fact. No instruction of a library function stores through, or lets copy / append / Put* / Read / a dst or buf parameter fill, a package-level array or slice of numbers, bytes.Buffer or strings.Builder. (R5) every io.Reader / io.Writer argument of a call that leaves the module originates in a parameter, a captured variable, a field, a value of a module type or bufio / base64 / bytes constructors. A call of a Read([]byte)(int,error) method in a function of the stream-handling packages that is not itself named Read sits in a block on a CFG cycle; the canary package lint/testdata/canary/stream must yield exactly its seeded site. (R2) a path of the iterator literal of readCar that returns after readBlock answered a non-nil error, without a yield that received that error, has the fact err == io.EOF.",
+			Explanation: "Error-discipline analysis (engine E6) over the stream-handling code: the set S of functions of packages container, token, delegation, invocation, envelope reachable from the exported functions that take an io.Reader / io.Writer (plus the CIDReader/CIDWriter methods) is computed on the in-module call graph; in S every call, defer or go whose callee returns an error and that is stream-related (its receiver or an argument implements io.Reader or io.Writer, or the callee is itself in S) must not lose that error: the error value must be used, every path on which it is tested non-nil must end in a failure return / false / panic or hand the error to the iterator consumer, and a deferred call may not return an error. Exemptions are a frozen table with reasons (hash.Hash.Write never fails; io.EOF ends the CAR iteration - the documented undetectable cut; calls on paths that already return an error). (R2) ldRead converts io.EOF from ReadUvarint / ReadFull into io.ErrUnexpectedEOF and only the Peek EOF propagates as a clean end; (R3) CIDReader.Read latches every non-EOF error and CID() returns it; FromSealedReader requires CID() to succeed. Independence from chunking is the contract of bufio / io.ReadFull / base64 / refmt and is not decided. (R4) no object is put back into a sync.Pool while still reachable from what the function returns (positive example under lint/testdata/canary/pool). A function literal run by defer may store an error only into a named result of the enclosing function. On a path that reaches a success return without testing the error of a stream-related call, the error is returned, stored, passed to a call or appears in a fact. No instruction of a library function stores through, or lets copy / append / Put* / Read / a dst or buf parameter fill, a package-level array or slice of numbers, bytes.Buffer or strings.Builder. (R5) every io.Reader / io.Writer argument of a call that leaves the module originates in a parameter, a captured variable, a field, a value of a module type or bufio / base64 / bytes constructors. A call of a Read([]byte)(int,error) method in a function of the stream-handling packages that is not itself named Read sits in a block on a CFG cycle; the canary package lint/testdata/canary/stream must yield exactly its seeded site. (R2) a path of the iterator literal of readCar that returns after readBlock answered a non-nil error, without a yield that received that error, has the fact err == io.EOF. (R1) for a stream-related call inside a loop, the error is compared, returned or passed on by an instruction of that loop (not merely carried to the loop header's phi or stored into a variable that is read only after the loop).",
 			Assumptions: []string{"bufio, io.ReadFull, encoding/base64 and the refmt-based codecs are correct under arbitrary chunking", "hash.Hash.Write never returns an error (documented)"},
 			Trusted:     []string{"bufio", "io", "encoding/base64", "go-ipld-prime codecs", "golang.org/x/tools/go/ssa v0.29.0"},
 			NotDecided:  []string{"chunking independence", "byte equality of streamed and buffered output (runtime values)"},
@@ -288,6 +288,11 @@ func errorDiscipline(x *Ctx, S map[*ssa.Function]bool) {
 				}
 				call := in.(*ssa.Call)
 				ok2, detail := errorHandled(x, f, call)
+				if ok2 {
+					if why := overwrittenInLoop(f, call); why != "" {
+						ok2, detail = false, why
+					}
+				}
 				x.C.Obl("C18.R1", key, pos, "the error of "+label+" is propagated, tested (with failure on non-nil), stored, or handed to the consumer", ok2, detail)
 			}
 		}
@@ -357,6 +362,60 @@ func deferredErrorCellsRule(x *Ctx, S map[*ssa.Function]bool, rule string) {
 			}
 		}
 	}
+}
+
+// overwrittenInLoop: the error of a call inside a loop that is neither tested nor handed on within the loop, but only
+// carried to the next iteration (a loop-header phi, or a variable stored again by the next call), is overwritten by
+// the outcome of the next iteration: only the last element's error reaches the code after the loop.
+func overwrittenInLoop(f *ssa.Function, call *ssa.Call) string {
+	l := paths.Info(f).InnermostLoop(call.Block())
+	if l == nil {
+		return ""
+	}
+	ev := errorValue(call)
+	if ev == nil {
+		return ""
+	}
+	inLoop := func(in ssa.Instruction) bool { return in.Block() != nil && l.Body[in.Block()] }
+	var usedInLoop func(v ssa.Value, depth int) bool
+	usedInLoop = func(v ssa.Value, depth int) bool {
+		if depth > 4 {
+			return true
+		}
+		for _, r := range *v.Referrers() {
+			switch t := r.(type) {
+			case *ssa.DebugRef:
+			case *ssa.Phi:
+				if inLoop(t) && t.Block() != l.Header && usedInLoop(t, depth+1) {
+					return true
+				}
+			case *ssa.Store:
+				// a variable: is it read inside the loop?
+				if a, ok := t.Addr.(*ssa.Alloc); ok && t.Val == v {
+					for _, r2 := range *a.Referrers() {
+						if u, ok := r2.(*ssa.UnOp); ok && inLoop(u) && usedInLoop(u, depth+1) {
+							return true
+						}
+					}
+					continue
+				}
+				return true
+			case *ssa.MakeInterface:
+				if usedInLoop(t, depth+1) {
+					return true
+				}
+			default:
+				if inLoop(r) {
+					return true // compared, returned, passed on ... within the loop
+				}
+			}
+		}
+		return false
+	}
+	if usedInLoop(ev, 0) {
+		return ""
+	}
+	return "the error of this call, made inside a loop, is only carried over to the next iteration, where the next call overwrites it: a failure on any element but the last one is lost"
 }
 
 func errorValue(call *ssa.Call) ssa.Value {
